@@ -13,6 +13,7 @@ import (
 	"os"
 	"reflect"
 	"sort"
+	"strings"
 
 	"github.com/tonkeeper/tongo/abi"
 	"github.com/tonkeeper/tongo/boc"
@@ -31,6 +32,9 @@ const (
 	tlbAllocPerB = 2 << 10
 	tlAllocBase  = 32 << 20
 	tlAllocPerB  = 64
+	// a case that has used this much process CPU without returning is ended by the worker's
+	// watchdog and reported as no-return (three times the bound that is a violation anyway)
+	caseCPULimit = 60.0
 )
 
 // ---------------------------------------------------------------- hostile cell trees
@@ -77,9 +81,12 @@ func padBits(b []bool) []byte {
 	return out
 }
 
-// rawBoc serialises any hcell DAG (generic magic, no index, optional CRC)
+// rawBoc serialises any hcell DAG (generic magic, no index, with CRC)
 // without validating anything about exotic cells.
-func rawBoc(root *hcell) []byte {
+func rawBoc(root *hcell) []byte { return rawBocMulti([]*hcell{root}) }
+
+// rawBocMulti: the same for any list of roots (0 roots, repeated roots, roots that are part of another root's DAG).
+func rawBocMulti(roots []*hcell) []byte {
 	var order []*hcell
 	idx := map[*hcell]int{}
 	var visit func(h *hcell)
@@ -95,7 +102,9 @@ func rawBoc(root *hcell) []byte {
 		}
 		post = append(post, h)
 	}
-	visit(root)
+	for _, r := range roots {
+		visit(r)
+	}
 	for i := len(post) - 1; i >= 0; i-- { // parents before children
 		idx[post[i]] = len(order)
 		order = append(order, post[i])
@@ -103,6 +112,9 @@ func rawBoc(root *hcell) []byte {
 	refSize := 1
 	for n := len(order); n >= 256; n >>= 8 {
 		refSize++
+	}
+	if len(roots) >= 256 && refSize < 2 {
+		refSize = 2
 	}
 	var data []byte
 	for _, h := range order {
@@ -130,10 +142,12 @@ func rawBoc(root *hcell) []byte {
 		}
 	}
 	put(len(order), refSize)
-	put(1, refSize)
+	put(len(roots), refSize)
 	put(0, refSize)
 	put(len(data), offSize)
-	put(0, refSize)
+	for _, r := range roots {
+		put(idx[r], refSize)
+	}
 	out = append(out, data...)
 	return binary.LittleEndian.AppendUint32(out, crc32.Checksum(out, crc32.MakeTable(crc32.Castagnoli)))
 }
@@ -342,6 +356,54 @@ type tlbJob struct {
 	PerType  int
 }
 
+// libResolver is the library store handed to Decoder.WithLibraryResolver in the "resolver" mode. It keeps
+// the contract of such a store (a cell for the hash, or an error) and can never build a cycle of its own:
+// it answers with the library cell itself (the one cell of the tree that certainly has the requested hash),
+// with a fresh ordinary cell that contains no library, or with "not found" - chosen by the hash, i.e. by
+// the untrusted tree.
+func libResolver(root *boc.Cell) func(h tlb.Bits256) (*boc.Cell, error) {
+	var libs []*boc.Cell
+	seen := map[*boc.Cell]bool{}
+	var walk func(c *boc.Cell, d int)
+	walk = func(c *boc.Cell, d int) {
+		if seen[c] || d > 70 || len(seen) > 300 {
+			return
+		}
+		seen[c] = true
+		if c.IsLibrary() {
+			libs = append(libs, c)
+		}
+		for _, r := range c.Refs() {
+			walk(r, d+1)
+		}
+	}
+	walk(root, 0)
+	return func(h tlb.Bits256) (*boc.Cell, error) {
+		switch int(h[0]) % 4 {
+		case 0, 1:
+			for _, l := range libs {
+				if hh, err := l.Hash256(); err == nil && hh == [32]byte(h) {
+					return l, nil
+				}
+			}
+			return nil, fmt.Errorf("library not found")
+		case 2:
+			c := boc.NewCell()
+			_ = c.WriteBytes(h[:int(h[1])%33])
+			if h[2]&1 == 1 {
+				ch := boc.NewCell()
+				_ = ch.WriteBytes(h[:int(h[3])%33])
+				_ = c.AddRef(ch)
+			}
+			return c, nil
+		default:
+			return nil, fmt.Errorf("library not found")
+		}
+	}
+}
+
+var tlbModes = []string{"plain", "decoder", "resolver", "debug"}
+
 func observeTLB(w *mon.Worker, e reg.Entry, h *hcell, kind, desc string, caseID string) {
 	c, raw, err := deliver(h)
 	if err != nil {
@@ -349,17 +411,34 @@ func observeTLB(w *mon.Worker, e reg.Entry, h *hcell, kind, desc string, caseID 
 		return
 	}
 	n := unfoldedBytes(h, map[*hcell]int{}, 64<<20)
-	for _, mode := range []string{"plain", "decoder"} {
+	hasLib := false
+	for _, x := range allCells(h) {
+		if x.exotic && len(x.bits) >= 8 && !x.bits[0] && !x.bits[1] && !x.bits[2] && !x.bits[3] && !x.bits[4] && !x.bits[5] && x.bits[6] && !x.bits[7] {
+			hasLib = true
+			break
+		}
+	}
+	for mi, mode := range tlbModes {
+		// the two rarely used decoder options: the resolver on every tree with a library cell, both on a sample
+		if mi >= 2 && !(mode == "resolver" && hasLib) && mon.Hash64(caseID+e.Name)%4 != uint64(mi-2) {
+			continue
+		}
 		resetAll(c, 0)
 		out := reflect.New(e.Type)
 		w.Begin("tlb/"+e.Name+"/"+caseID+"/"+mode, raw)
+		w.Note("tlb.Unmarshal[" + mode + "]")
 		m := mon.StartMeter()
 		var derr error
 		p := mon.Guard(func() {
-			if mode == "plain" {
+			switch mode {
+			case "plain":
 				derr = tlb.Unmarshal(c, out.Interface())
-			} else {
+			case "decoder":
 				derr = tlb.NewDecoder().Unmarshal(c, out.Interface())
+			case "resolver":
+				derr = tlb.NewDecoder().WithLibraryResolver(libResolver(c)).Unmarshal(c, out.Interface())
+			case "debug":
+				derr = tlb.NewDecoder().WithDebug().Unmarshal(c, out.Interface())
 			}
 		})
 		cpu, alloc, _ := m.Stop()
@@ -370,13 +449,22 @@ func observeTLB(w *mon.Worker, e reg.Entry, h *hcell, kind, desc string, caseID 
 		if p != nil {
 			x := wit()
 			x["panic"], x["stack"] = p.Value, mon.Trunc(p.Stack, 1500)
-			w.Violation("panic@"+p.Site+"/"+mon.PanicClass(p.Value), x)
+			sig := "panic@" + p.Site + "/" + mon.PanicClass(p.Value)
+			if mi >= 2 {
+				sig = "panic@" + p.Site + "/" + mode + "/" + mon.PanicClass(p.Value)
+			}
+			w.Violation(sig, x)
 			w.Eval("tlb/panic/" + e.Name)
 			return
 		}
-		if alloc > uint64(tlbAllocBase+tlbAllocPerB*n) {
+		// with a resolver the decoder legitimately walks the resolved cells too: the bound counts them
+		bound := tlbAllocBase + tlbAllocPerB*n
+		if mode == "resolver" {
+			bound += tlbAllocPerB * n
+		}
+		if alloc > uint64(bound) {
 			x := wit()
-			x["alloc_bytes"], x["bound"] = alloc, tlbAllocBase+tlbAllocPerB*n
+			x["alloc_bytes"], x["bound"] = alloc, bound
 			w.Violation("alloc-out-of-proportion@tlb.Unmarshal/"+e.Name, x)
 		}
 		if cpu > cpuBound {
@@ -390,6 +478,12 @@ func observeTLB(w *mon.Worker, e reg.Entry, h *hcell, kind, desc string, caseID 
 		}
 		w.Eval(fmt.Sprintf("tlb/%s/%s/%s/%s", e.Name, kind, caseID, outcome))
 		w.Count("tlb_"+outcome, 1)
+		if mi >= 2 {
+			w.Count("tlb_mode_"+mode+"_"+outcome, 1)
+		}
+		if derr == nil && mode == "plain" {
+			secondStage(w, e.Name, out, raw, n, kind, caseID)
+		}
 	}
 }
 
@@ -406,6 +500,7 @@ func resetAll(c *boc.Cell, d int) {
 func tlbWorker(w *mon.Worker) {
 	var j tlbJob
 	json.Unmarshal(w.Job, &j)
+	w.CaseCPULimit = caseCPULimit
 	types := reg.Types()
 	for ti := j.From; ti < j.To && ti < len(types); ti++ {
 		e := types[ti]
@@ -428,6 +523,10 @@ func tlbWorker(w *mon.Worker) {
 		w.Count("types", 1)
 		if len(seeds) > 0 {
 			w.Count("types_with_valid_seed", 1)
+		} else if rs := realSeeds(w, e.Name); len(rs) > 0 {
+			// types the library cannot write: real encodings (parts of real blocks and proofs) or reference-written ones
+			seeds = rs
+			w.Count("types_with_real_seed", 1)
 		}
 		// one fault at a time, enumerated over every position of the valid encodings: each reference dropped,
 		// each reference replaced by a pruned branch / a library cell, each cell cut at a few bit positions,
@@ -615,6 +714,7 @@ func observeTL(w *mon.Worker, name string, t reflect.Type, in []byte, kind, case
 			continue
 		}
 		w.Begin("tl/"+name+"/"+caseID+"/"+via, in)
+		w.Note(via)
 		m := mon.StartMeter()
 		var err error
 		p := mon.Guard(func() {
@@ -657,6 +757,7 @@ func observeTL(w *mon.Worker, name string, t reflect.Type, in []byte, kind, case
 func tlWorker(w *mon.Worker) {
 	var j tlJob
 	json.Unmarshal(w.Job, &j)
+	w.CaseCPULimit = caseCPULimit
 	names := tlNames()
 	for ti := j.From; ti < j.To && ti < len(names); ti++ {
 		name := names[ti]
@@ -707,13 +808,15 @@ func tlWorker(w *mon.Worker) {
 
 // ---------------------------------------------------------------- helpers on network data
 
-type helperJob struct{ N int }
+type helperJob struct{ N, Index int }
 
 func helperWorker(w *mon.Worker) {
 	var j helperJob
 	json.Unmarshal(w.Job, &j)
+	w.CaseCPULimit = caseCPULimit
 	guard := func(op string, in []byte, f func()) {
 		w.Begin("helper/"+op, in)
+		w.Note(op)
 		m := mon.StartMeter()
 		p := mon.Guard(f)
 		cpu, alloc, _ := m.Stop()
@@ -730,8 +833,44 @@ func helperWorker(w *mon.Worker) {
 		w.Eval(fmt.Sprintf("helper/%s/%x", op, mon.Hash64(string(in))))
 	}
 	names := tlNames()
+	// valid encodings of arbitrary (reflect) types: seeds for the cells that sit in stack values
+	seedCache := map[reflect.Type][]*hcell{}
+	seedOf := func(rng *mon.Rng) func(t reflect.Type) *hcell {
+		return func(t reflect.Type) *hcell {
+			pool, ok := seedCache[t]
+			if !ok {
+				for i := 0; i < 6 && len(pool) < 3; i++ {
+					g := reg.NewGen(w.Rng("stackseed/"+t.String(), i))
+					g.TopArm = i
+					var v reflect.Value
+					if p := mon.Guard(func() { v = g.New(t) }); p != nil {
+						continue
+					}
+					c := boc.NewCell()
+					var err error
+					if p := mon.Guard(func() { err = tlb.Marshal(c, v.Interface()) }); p != nil || err != nil {
+						continue
+					}
+					pool = append(pool, fromTongo(c, map[*boc.Cell]*hcell{}, 0))
+				}
+				seedCache[t] = pool
+			}
+			if len(pool) == 0 {
+				return nil
+			}
+			return mon.Pick(rng, pool)
+		}
+	}
+	shapes := stackShapes()
+	if j.Index == 0 {
+		w.Count("get_method_stack_shapes", int64(len(shapes)))
+	}
+	var ifaces []abi.ContractInterface
+	for i := abi.ContractInterface(0); i <= abi.WhalesPool+1; i++ {
+		ifaces = append(ifaces, i)
+	}
 	for k := 0; k < j.N; k++ {
-		rng := w.Rng("helper", k)
+		rng := w.Rng(fmt.Sprintf("helper/%d", j.Index), k)
 		// (1) LiteapiRequestDecoder: valid request bytes of a random request type, mutated
 		var reqBytes []byte
 		for tries := 0; tries < 10; tries++ {
@@ -789,6 +928,52 @@ func helperWorker(w *mon.Worker) {
 			resetAll(c, 0)
 			guard("abi.ExtOutMessageDecoder", raw, func() { abi.ExtOutMessageDecoder(c, nil, tlb.MsgAddress{SumType: "AddrNone"}) })
 			guard("code.ParseContractMethods", raw, func() { code.ParseContractMethods(raw) })
+			// the same decoders with interface hints (the per-interface decoder lists run first) and on a body
+			// that starts in the middle of a cell (the decoders then work on a copy of the remainder)
+			hints := []abi.ContractInterface{mon.Pick(rng, ifaces), mon.Pick(rng, ifaces), mon.Pick(rng, ifaces)}
+			if k%8 == 0 {
+				hints = ifaces
+			}
+			for _, skip := range []int{0, rng.Intn(40)} {
+				pre := func() {
+					resetAll(c, 0)
+					if skip > 0 {
+						c.Skip(skip)
+						if rng.Bool() {
+							c.NextRef()
+						}
+					}
+				}
+				pre()
+				guard("abi.InternalMessageDecoder[hints]", raw, func() { abi.InternalMessageDecoder(c, hints) })
+				pre()
+				guard("abi.ExtInMessageDecoder[hints]", raw, func() { abi.ExtInMessageDecoder(c, hints) })
+				pre()
+				guard("abi.ExtOutMessageDecoder[hints]", raw, func() { abi.ExtOutMessageDecoder(c, hints, tlb.MsgAddress{SumType: "AddrNone"}) })
+			}
+		}
+		// (2b) VM stacks shaped after the result types of the library's get-method decoders, then mapped onto them
+		if len(shapes) > 0 {
+			for rep := 0; rep < 2; rep++ {
+				si := (j.Index*j.N*2 + k*2 + rep) % len(shapes)
+				g := &stackGen{rng: rng, seed: seedOf(rng)}
+				root, sdesc := g.shaped(shapes[si])
+				sc, sraw, err := deliver(root)
+				if err != nil {
+					w.Count("undeliverable_trees", 1)
+					continue
+				}
+				var st tlb.VmStack
+				var derr error
+				guard("tlb.Unmarshal[VmStack]", sraw, func() { derr = tlb.Unmarshal(sc, &st) })
+				if derr != nil {
+					w.Count("shaped_stack_rejected", 1)
+					continue
+				}
+				w.Count("shaped_stack_decoded", 1)
+				s2 := &stage2{w: w, name: fmt.Sprintf("shaped-stack-%d", si), raw: sraw, n: unfoldedBytes(root, map[*hcell]int{}, 64<<20), kind: sdesc, caseID: fmt.Sprintf("h%d/%d/%d", j.Index, k, rep)}
+				s2.stack(st, nil)
+			}
 		}
 		// (3) byte-level: contract code and VmStack.UnmarshalTL on BOCs with 0 / 2 roots, garbage, valid-but-odd
 		zeroRoots := []byte{0xb5, 0xee, 0x9c, 0x72, 0x01, 0x01, 0x01, 0x00, 0x00, 0x02, 0x00, 0x00}
@@ -827,8 +1012,10 @@ func main() {
 		tier = os.Args[1]
 	}
 	R := mon.Start("C08", tier)
-	R.Rule = "(a) every registry TL-B type x hostile cell trees (valid encodings mutated: bit flips, truncation/extension, refs dropped/added/swapped, children replaced by pruned/library/Merkle/malformed exotic cells; random trees; shared-subtree ladders with bounded unfolding), decoded by tlb.Unmarshal and tlb.NewDecoder(); (b) every generated TL type of liteclient x hostile bytes (every truncation of valid encodings, every aligned word replaced by hostile length/count words, random edits, count/length bombs), decoded by tl.Unmarshal and UnmarshalTL; (c) LiteapiRequestDecoder, the ABI message decoders, code.ParseContractMethods, VmStack.UnmarshalTL and a real liteapi/liteclient client fed by a hostile lite server; every call runs in a child process (ulimit -v) under panic/fatal/CPU/allocation monitors; non-trivial = a decode that ran under the monitors; distinct = distinct (type, input kind, case, outcome)"
-	R.Assume(fmt.Sprintf("allocation bounds: TL-B %d + %d x bytes of the unfolded tree; TL %d + %d x len(input) (a TL bytes field may legitimately pre-allocate up to 2^24 from its prefix); CPU %v s per call", tlbAllocBase, tlbAllocPerB, tlAllocBase, tlAllocPerB, cpuBound))
+	R.Rule = "(a) every registry TL-B type x hostile cell trees (valid encodings mutated: bit flips, truncation/extension, refs dropped/added/swapped, children replaced by pruned/library/Merkle/malformed exotic cells; random trees; shared-subtree ladders with bounded unfolding; for the types the library cannot write, parts of real blocks / proofs and reference-written dictionaries and tuples as seeds), decoded by tlb.Unmarshal and tlb.NewDecoder(), on a sample also by a decoder WithDebug and by a decoder WithLibraryResolver (on every tree with a library cell) whose store answers with the library cell itself, a fresh ordinary cell or not-found; values that decode go on to the second-stage decoders of the anchored files (VmStack.Unmarshal onto result types, VmStackValue/VmStkTuple.Unmarshal, RecursiveToSlice, VmCellSlice.Cell/UnmarshalToTlbStruct, BlockExtra.In/OutMsgDescr(+Length), Block.AllTransactions, ShardState.AccountBalances, ContentData.Bytes); (b) every generated TL type of liteclient x hostile bytes (every truncation of valid encodings, every aligned word replaced by hostile length/count words, random edits, count/length bombs), decoded by tl.Unmarshal and UnmarshalTL; (c) LiteapiRequestDecoder, the ABI message decoders (without and with interface hints, on fresh and on partly read cells), code.ParseContractMethods, VmStack.UnmarshalTL, VM stacks written from block.tlb in the shapes the get-method decoders of abi accept (then all of abi.KnownGetMethodsDecoder), and a real liteapi/liteclient client fed by a hostile lite server: plain jobs (malformed ADNL length prefixes, wrong tags, truncated / edited TL) and deep jobs (well-formed TL of the right constructor whose BOC / proof fields start from a bag the method accepts - a valid account, a two-root account-state proof that contains the account, a header proof of a real block, a real config proof, real shard hashes, valid transactions, VM stacks of the shape the wrapper expects - and carry one lie: exotic roots without references or with wrong payload sizes, extra / missing / swapped roots, pruned or foreign virtual roots, structural mutations, truncated bytes; 35 liteapi methods incl. the hand-decoded waitMasterchainSeqno answers through liteclient.Client and liteapi); every call runs in a child process (ulimit -v) under panic/fatal/CPU/allocation monitors and a per-case CPU watchdog (a call that never returns is reported as no-return); non-trivial = a decode that ran under the monitors; distinct = distinct (type, input kind, case, outcome)"
+	R.Assume(fmt.Sprintf("allocation bounds: TL-B %d + %d x bytes of the unfolded tree (twice that with a library resolver and for the second stage); TL %d + %d x len(input) (a TL bytes field may legitimately pre-allocate up to 2^24 from its prefix); CPU %v s per call; a case that has used %v s of CPU without returning is stopped and reported", tlbAllocBase, tlbAllocPerB, tlAllocBase, tlAllocPerB, cpuBound, caseCPULimit))
+	R.Assume("a library store handed to WithLibraryResolver returns a cell (possibly a library cell: the cell whose hash was asked for) or an error; stores that return (nil, nil) or build cycles are not modelled")
+	R.Assume("destination types of the stack mapping are the library's own result types (through abi.KnownGetMethodsDecoder) and plain structs of ints, Int257, Bits256, bool, MsgAddress, Cell, Any, slices and pointers of those")
 	R.Assume("encoding-side panics on inconsistent caller input are outside the statement")
 	nTypes := len(reg.Types())
 	var jobs []mon.Job
@@ -846,15 +1033,26 @@ func main() {
 	}
 	hj := R.N(8, 64)
 	for k := 0; k < hj; k++ {
-		jobs = append(jobs, mon.Job{Name: "helpers", Input: helperJob{R.N(150, 2000)}})
+		jobs = append(jobs, mon.Job{Name: "helpers", Input: helperJob{R.N(150, 2000), k}})
 	}
 	for k := 0; k < R.N(8, 48); k++ {
 		jobs = append(jobs, mon.Job{Name: "net", Input: netJob{Index: k, N: R.N(140, 420)}})
+	}
+	for k := 0; k < R.N(8, 48); k++ {
+		jobs = append(jobs, mon.Job{Name: "net", Input: netJob{Index: 1000 + k, N: R.N(500, 2500), Deep: true}})
 	}
 	R.Extra("tlb_types", nTypes)
 	R.Extra("tl_types", nTL)
 	R.Extra("jobs", len(jobs))
 	R.RunJobs(jobs, mon.ChildOpts{Parallel: 16, UlimitKiB: 6 << 20, Env: []string{"GOMAXPROCS=2"}}, func(c mon.Crash) {
+		if c.CPUExceeded > 0 {
+			cls := c.Case
+			if i := strings.IndexByte(cls, '/'); i > 0 {
+				cls = cls[:i]
+			}
+			R.Violation("no-return@"+c.CPUStep+"/"+cls, map[string]any{"case": c.Case, "input_hex": mon.HexTrunc(c.Input, 6000), "len": len(c.Input), "cpu_s_when_stopped": c.CPUExceeded, "step": c.CPUStep})
+			return
+		}
 		if c.TimedOut {
 			R.Inconclusive("child watchdog (15 min) fired")
 			return
